@@ -240,7 +240,8 @@ class RRELNavigation(RRELBase):
 
         for start_obj in start:
             res, res_lookup_list, res_lookup_path = lookup(start_obj)
-            if res:
+            # (an object found may itself be falsy, e.g. an empty container)
+            if res is not None and not (isinstance(res, list) and not res):
                 return res, res_lookup_list, res_lookup_path
 
         return None, lookup_list, matched_path
